@@ -25,6 +25,12 @@
 #include <sys/mman.h>
 #include <sys/wait.h>
 
+#ifdef VF_COVERAGE   // tools/coverage.py: children leave through _exit(), which skips gcov's atexit handler
+extern "C" void __gcov_dump(void);
+#define VF_COV_DUMP() __gcov_dump()
+#else
+#define VF_COV_DUMP() ((void)0)
+#endif
 namespace vf {
 
 typedef long double LD;
@@ -221,6 +227,7 @@ inline int supervise(const Args &args, const std::function<void(Ctx &)> &body) {
       for (auto &v : crashes) c.st.violations.push_back(v);
       write_partial(args, c.st, now_s() - t0);
       fflush(stdout);
+      VF_COV_DUMP();
       _exit(0);
     }
     int status = 0; waitpid(pid, &status, 0);
